@@ -90,6 +90,9 @@ mod kani_harness {
 	inst!(c01_tile_id_roundtrip_z3, roundtrip, 3, 34);
 	inst!(c01_tile_id_roundtrip_z6, roundtrip, 6, 34);
 	inst!(c01_tile_id_roundtrip_z10, roundtrip, 10, 34);
+	inst!(c01_tile_id_roundtrip_z14, roundtrip, 14, 34);
+	inst!(c01_tile_id_roundtrip_z20, roundtrip, 20, 34);
+	inst!(c01_tile_id_roundtrip_z31, roundtrip, 31, 34);
 
 	// C19: every u64 id -> coordinate or error; zoom >= 32 and out-of-range coordinates are errors
 	#[kani::proof]
